@@ -48,6 +48,13 @@ PROPS = {
          "note": "Calls other than the inlined callees are credited with nothing and assumed not to dirty members; loops with symbolic bounds are skipped. "
                  "26+16 members are exempt with a written-before-read justification and 58 container/scratch members are dropped (not reset at the pinned commit, "
                  "observability undecided): contracts/B/reset_exempt.json. Three genuine defects found by these obligations were repaired (known_findings.json)."},
+ "C19": {"claimed": True, "engine": "B", "level": "proof",
+         "technique": "own VC generator over clang AST: iteration/statement contracts on isolated loops, sympy normalisation, z3",
+         "text": "Statement/iteration contracts on the loops of both Phreeqc::calc_PR functions, each executed from an arbitrary state: per gas a = 0.457235 R^2 Tc^2/Pc, b = 0.077796 R Tc/Pc, "
+                 "alpha = (1+kappa(1-sqrt(T/Tc)))^2 re-evaluated at the current temperature (representation invariant on the cached values), mole fraction = moles/sum, "
+                 "P = RT/(Vm-b) - a_alpha/(Vm^2+2bVm-b^2), partial pressure = x*P, ln(phi) equals the Peng-Robinson fugacity equation clamped to [-4.6,4.44], phi = exp, si_f = ln(phi)/ln10, "
+                 "absent gas: p=0, phi=1; only that gas's fields are written. Root selection in the three-root region, fixed-pressure existence, the mixing sums and the solver coupling are NOT decided.",
+         "note": "Doubles as reals; log/exp/sqrt uninterpreted; literals 2.828427/2.41421356/0.41421356 checked against 2sqrt2, 1+sqrt2, sqrt2-1 at 1e-6; std::vector model; the surrounding function is not executed (loops are isolated)."},
  "C06": {"na_reason": "quantifies over thread schedules and bitwise reproducibility; code contracts and the VC generator are sequential and read doubles as reals; "
                       "the sequential remainder (unique ids, lock bracketing) belongs to C13 and says nothing about races"},
 }
